@@ -35,6 +35,9 @@ structure MonAux where
   prevDump : Option String := none
   tx : Bool := false
   seen : List String := []        -- every record name that has been in a dump of this history
+  blind : Bool := false           -- the history has had an injected fault or interleaved requests: from then on the
+                                  -- bookkeeping monitors (which assume fault-free sequential histories) stay silent
+  wire : Option String := none    -- grant_type value on the wire for the next token request (op "wire")
 
 /-- monitor: reads alternating (operation, observation) lines; prints the hits for each pair -/
 partial def monitorLoop (h : IO.FS.Stream) (out : IO.FS.Stream) (b : Fosite.Spec.Monitor.Book) (a : MonAux) : IO Unit := do
@@ -54,8 +57,25 @@ partial def monitorLoop (h : IO.FS.Stream) (out : IO.FS.Stream) (b : Fosite.Spec
     let o := Fosite.Spec.Monitor.outSeg obs
     let a := match f with
       | "cfg" :: rest => { a with tx := kv rest "tx" == "1" }
+      | "fault" :: _ => { a with blind := true }
+      | "par" :: _ => { a with blind := true }
       | _ => a
-    let hits0 := Fosite.Spec.Monitor.check b f o ++ Fosite.Spec.Monitor.taintHits obs
+    -- a token request sent with a grant_type that is not its own single grant type is nobody's request: the
+    -- bookkeeping neither judges nor records it (the model answers invalid_request and changes nothing; the
+    -- correspondence holds the implementation to that)
+    let unhandled := match a.wire, f with
+      | some w, k :: _ =>
+        let own := match k with
+          | "redeem" => some "authorization_code" | "refresh" => some "refresh_token" | "cc" => some "client_credentials"
+          | "password" => some "password" | "devicePoll" => some "urn:ietf:params:oauth:grant-type:device_code" | _ => none
+        (match own with | some g => Fosite.Model.grantTypesOf w != [g] | none => false)
+      | _, _ => false
+    -- (if the implementation handled it after all, it is judged and recorded like the ordinary request)
+    let unhandled := unhandled && o.startsWith "err invalid_request/"
+    let a := match f with
+      | ["wire", spec] => { a with wire := if spec.startsWith "gt=" then (Fosite.Driver.unhexAscii (spec.drop 3).toString.toList).map String.ofList else none }
+      | _ => { a with wire := none }
+    let hits0 := (if a.blind || unhandled then [] else Fosite.Spec.Monitor.check b f o) ++ Fosite.Spec.Monitor.taintHits obs
     let dump := (Fosite.Spec.MonitorTx.segs obs).getD 2 ""
     let back := match a.prevDump with
       | some d => Fosite.Spec.MonitorTx.resurrected d dump a.seen
@@ -64,7 +84,7 @@ partial def monitorLoop (h : IO.FS.Stream) (out : IO.FS.Stream) (b : Fosite.Spec
     let hits := hits0 ++ Fosite.Spec.MonitorTx.txHits a.tx a.prevDump obs ++ back ++ par
     out.putStrLn (" ".intercalate hits)
     let seen' := (Fosite.Spec.MonitorTx.allNames dump).foldl (fun acc n => if acc.contains n then acc else n :: acc) a.seen
-    monitorLoop h out (Fosite.Spec.Monitor.update b f o) { a with prevDump := some dump, seen := seen' }
+    monitorLoop h out (if unhandled then b else Fosite.Spec.Monitor.update b f o) { a with prevDump := some dump, seen := seen' }
 
 def main (args : List String) : IO UInt32 := do
   let stdin ← IO.getStdin
